@@ -13,7 +13,7 @@ from mc.canon import short
 
 ID = 'C16'
 LEVEL = 'model_checking'
-RULE = ('E2 explicit-state exploration of library state: events (63: '
+RULE = ('E2 explicit-state exploration of library state: events (65: '
         'construct with defaults, marshal, unmarshal valid, unmarshal '
         'invalid, failing constructions, the 3 toggles, a change of the '
         'caller\'s decimal context and of the logging configuration, '
@@ -26,7 +26,7 @@ RULE = ('E2 explicit-state exploration of library state: events (63: '
         '(closes at 2 states on the unchanged tree: switch off/on; the state '
         'count is reported, never judged) plus every history of depth <= 2 '
         'and every a;b;a history and every depth-3 history over a core of '
-        '16 events (thorough: every history of depth 3 over all 53) '
+        '19 events (thorough: every history of depth 3 over all 53) '
         'without deduplication, each rebuilt from a fresh '
         'import; oracle: every event\'s canonical result equals the result '
         'of that event alone in a fresh interpreter (one subprocess per '
@@ -282,7 +282,9 @@ CORE = ['construct Queue.Declare', 'marshal Queue.Declare',
         'construct bad exchange name', 'toggle (True)', 'toggle (False)',
         'encode flag-sensitive table', 'env: decimal context prec=6',
         'marshal refused mid-way', 'mutate decoded arguments',
-        'encode Decimal 21474836.47']
+        'encode Decimal 21474836.47', 'unmarshal Basic.Publish',
+        'define application subclasses of method classes',
+        'unmarshal frames with unknown class / method ids']
 
 
 def core_events():
